@@ -202,7 +202,7 @@ _ADDED = {
  "C14": "All units now use a non-default unit-conversion factor (an `IterMesh` that falls back to the default factor is otherwise invisible).",
  "C15": "Added in the fifth round: caller ownership of every `PhonopyAtoms` constructor/setter argument (incl. scalar and vector magnetic moments) in the zero-copy-prone form.  Added after the seed rounds: the caller's unit cell stays untouched and `copy()` is independent; a `derived` unit — group velocities (at q, on a q-list, on a mesh) after 40 histories that contain a group-velocity query *before* a state change equal those of a fresh object (ground facts on concrete force constants: the helper's numerics involve LAPACK).",
  "C16": "Added after the seed rounds: non-symmetric primitive/supercell matrices and datasets with energies (including an energy of exactly 0.0), compared key by key.  Added in the fifth round: a `files` ground-fact unit — FORCE_SETS (type 1, type 2, type 1 read as type 2), FORCE_CONSTANTS and force_constants.hdf5 (full and compact layout with `p2s_map` of an interleaved F-centred cell, physical unit, gzip; a compact file with foreign first indices must be refused), BORN (rutile-like and P3 crystals, anisotropic symmetrised tensors), and `save()`→`load()` of a whole object with NAC in dataset form, force-constant form and xz/gzip compression (cells, matrices, dataset incl. energies, force constants, NAC incl. factor, calculator, frequencies at generic/boundary/near-Γ q).  These are concrete evaluations of the real writers and parsers, not solver claims.",
- "C17": "Added in the fifth round: `roundtrip` now covers 12 of the 16 interfaces (ABACUS, QE, SIESTA and TURBOMOLE through `write_crystal_structure` with arbitrary pseudopotential/orbital labels; for QE and SIESTA, whose writers emit the structure fragment of an input file, the harness prepends only the counts/species table the reader demands) — CRYSTAL, CP2K, FLEUR and WIEN2k write from templates or read calculator *output* and stay outside; `forces` — LAMMPS dump lines in every order are placed by atom id, doubled/missing ids refused.  Added after the fourth seed round: `magmom` — the n-th value of the VASP `MAGMOM` file belongs to the n-th atom of the species-grouped structure file, for all symbol lists of length ≤ 5 over three species (exhaustive ground facts).",
+ "C17": "Added in the fifth round: `roundtrip` now covers 12 of the 16 interfaces (ABACUS, QE, SIESTA and TURBOMOLE through `write_crystal_structure` with arbitrary pseudopotential/orbital labels; for QE and SIESTA, whose writers emit the structure fragment of an input file, the harness prepends only the counts/species table the reader demands) — CRYSTAL, CP2K, FLEUR and WIEN2k write from templates or read calculator *output* and stay outside; `forces` — LAMMPS dump lines in every order are placed by atom id, doubled/missing ids refused; `displaced` — for the same 12 interfaces `write_supercells_with_displacements` with ids 1 and 7: the file numbered k read back is the k-th displaced supercell and no other, the unnumbered one the perfect supercell.  Added after the fourth seed round: `magmom` — the n-th value of the VASP `MAGMOM` file belongs to the n-th atom of the species-grouped structure file, for all symbol lists of length ≤ 5 over three species (exhaustive ground facts).",
  "C19": "Added after the fourth seed round: the sampler's own draws — numpy's generator is replaced by a contract stub (a stream is a function of its seed; unseeded generators are unrelated) handing out symbols; every variate slot must receive its own symbol and the displacements must be Σ z_m u(e_m) for exactly those symbols (z3), with and without `random_seed`.",
  "C20": "Fifth round: `numpy.gradient` is modelled by the symbolic numpy layer (uneven-grid finite differences written with it are decided, not crashed).  Added after the seed rounds: uneven temperature grids with an exact-interpolation oracle; `api` units — every fit made on behalf of `PhonopyQHA(eos=name)` (the static E(V) fit and the F(V;T) fits) hands scipy the named equation of state (term equality, exp and fractional powers uninterpreted).",
 }
